@@ -276,6 +276,27 @@ package main
 // pathPart(u): the path component of a request URI (everything before the first '?' or '#').
 //@ define pathPart(u string) string = ite(strings.IndexAny(u, "?#") >= 0, u[0:strings.IndexAny(u, "?#")], u)
 
+// A skip-auth route is written "regex", "METHOD=regex" or "METHOD!=regex": the separator is the first "=" (with a "!" right
+// before it, the rule is negated); what follows is the regular expression, whatever it contains.
+//@ define ruleEq(r string) int = Index(r, "=")
+//@ define ruleNegated(r string) bool = ruleEq(r) >= 1 && r[ruleEq(r) - 1:ruleEq(r)] == "!"
+//@ define rulePath(r string) string = ite(Contains(r, "="), r[ruleEq(r) + 1:], r)
+//@ define ruleMethod(r string) string = ite(!Contains(r, "="), "", ite(ruleNegated(r), r[:ruleEq(r) - 1], r[:ruleEq(r)]))
+
+//@ func buildRoutesAllowlist
+//@ safety
+//@ prop C15 C19
+//@ loop 0 invariant[legacy-rules-so-far] rangeindex >= -1 && rangeindex < len(opts.SkipAuthRegex) && len(routes) == rangeindex + 1
+//@ loop 1 invariant[route-rules-so-far] rangeindex >= -1 && rangeindex < len(opts.SkipAuthRoutes) && len(routes) == len(opts.SkipAuthRegex) + rangeindex + 1
+//@ at call append#0 assert[legacy-rule-any-method-not-negated] arg(append#0, 1)[0].method == "" && !arg(append#0, 1)[0].negate
+//@     && arg(append#0, 1)[0].pathRegex == ret0(Compile#0) && ret1(Compile#0) == nil && arg(Compile#0, 0) == path
+//@ at call append#1 assert[rule-is-method-negation-regex-as-written] arg(append#1, 1)[0].negate == ruleNegated(methodPath)
+//@     && arg(append#1, 1)[0].method == ite(Contains(methodPath, "="), strings.ToUpper(ruleMethod(methodPath)), "")
+//@     && arg(append#1, 1)[0].pathRegex == ret0(Compile#1)
+//@     && ret1(Compile#1) == nil && arg(Compile#1, 0) == rulePath(methodPath)
+//@ ensures[an-uncompilable-rule-is-an-error] (called(Compile#0) && ret1(Compile#0) != nil) || (called(Compile#1) && ret1(Compile#1) != nil) ==> ret1 != nil && ret0 == nil
+//@ ensures[one-route-per-configured-rule] ret1 == nil ==> len(ret0) == len(opts.SkipAuthRegex) + len(opts.SkipAuthRoutes)
+
 //@ func (*OAuthProxy).IsAllowedRequest
 //@ nomod
 //@ prop C15 C01
